@@ -42,6 +42,9 @@ var c06Files = []refpar2.InFile{
 
 const c06S = 4
 
+// a file listed in the non-recovery set of every third layout
+var c06NRFile = refpar2.InFile{Name: "nr/extra.bin", Data: []byte("not protected, only described")}
+
 // counts the uninterpreted packets written so far (selects their type in turn)
 var optCounter int
 
@@ -52,6 +55,8 @@ var unknownType = func() [16]byte {
 }()
 
 type c06World struct {
+	ownNR      *refpar2.Set // the own set with one file in the NON-recovery set (another main packet, another set id)
+	useNR      bool
 	own, other *refpar2.Set
 	slices     [][]byte
 	otherSl    [][]byte
@@ -60,6 +65,15 @@ type c06World struct {
 func (w *c06World) packet(t c06Tok) []byte {
 	s := w.own
 	sl := w.slices
+	if w.useNR && t.Set != "other" {
+		s = w.ownNR
+		if t.Type == "creator" {
+			// wherever the creator packet goes, the non-recovery file's description and checksum packets go too
+			b := append([]byte{}, s.CreatorPacket("refwriter")...)
+			b = append(b, s.NRFileDescPacket(0)...)
+			return append(b, s.NRIFSCPacket(0)...)
+		}
+	}
 	if t.Set == "other" {
 		s = w.other
 		sl = w.otherSl
@@ -221,6 +235,7 @@ func runC06(args []string) error {
 		other: refpar2.NewSet([]refpar2.InFile{{Name: "foreign.bin", Data: []byte("foreign data!")}}, c06S)}
 	w.slices = w.own.AllSlices()
 	w.otherSl = w.other.AllSlices()
+	w.ownNR = w.own.WithNonRecovery([]refpar2.InFile{c06NRFile})
 	var facts []inputFact
 	for _, fl := range c06Files {
 		facts = append(facts, inputFacts(fl.Name, fl.Data, c06S))
@@ -263,6 +278,9 @@ func runC06(args []string) error {
 			return err
 		}
 		li++
+		// every third layout describes the same protected files in a set that also lists a file in its non-recovery
+		// set (checksums recorded, not protected; present on disk for some layouts, absent for others)
+		w.useNR = li%3 == 2
 		for di, dmg := range []string{"A", "B"} {
 			dir, index, err := w.write(root, l)
 			if err != nil {
@@ -270,7 +288,7 @@ func runC06(args []string) error {
 			}
 			// the reference writer's output is judged by Par2Format once per (index order, scheme, partition, style)
 			key := fmt.Sprint(l.ID[0], l.ID[1], l.ID[2], l.ID[3])
-			if !seenRef[key] {
+			if !seenRef[key] && !w.useNR {
 				seenRef[key] = true
 				ents, _ := ioutil.ReadDir(dir)
 				files := []tracelog.M{}
@@ -296,6 +314,9 @@ func runC06(args []string) error {
 			}
 			if err := w.placeData(dir, dmg); err != nil {
 				return err
+			}
+			if w.useNR && li%2 == 0 {
+				sandbox.WriteFile(filepath.Join(dir, "nr", "extra.bin"), c06NRFile.Data)
 			}
 			pathmode := "abs"
 			idx := index
